@@ -274,6 +274,21 @@ class Yajilin(Base):
                     y, x = rng.randrange(h), rng.randrange(w)
                     p[y][x] = rng.choice(["??"] + [dch + str(n) for dch in "^v<>" for n in (0, 1, 2)])
                 out.append({"tag": "%dx%d/r%d" % (h, w, k), "h": h, "w": w, "problem": p})
+            # systematic: one arrow clue in every cell, every direction, counts 0 and 1 (2 on the longer boards)
+            for y in range(h):
+                for x in range(w):
+                    for dch in "^v<>":
+                        for n in ((0, 1) if tier == "quick" else (0, 1, 2)):
+                            p = [[".."] * w for _ in range(h)]
+                            p[y][x] = dch + str(n)
+                            out.append({"tag": "%dx%d/at%d,%d%s%d" % (h, w, y, x, dch, n), "h": h, "w": w, "problem": p})
+        for (h, w) in ([(4, 2), (2, 4)] if tier == "quick" else [(4, 2), (2, 4), (5, 2), (2, 5), (5, 3), (3, 5)]):
+            for (y, x) in ((0, 0), (h - 1, w - 1), (0, w - 1), (h - 1, 0)):
+                for dch in "^v<>":
+                    for n in (0, 1, 2):
+                        p = [[".."] * w for _ in range(h)]
+                        p[y][x] = dch + str(n)
+                        out.append({"tag": "%dx%d/at%d,%d%s%d" % (h, w, y, x, dch, n), "h": h, "w": w, "problem": p})
         return out
 
     def call(self, mod, d):
